@@ -293,6 +293,8 @@ type hsCase struct {
 
 var postSizes = []int{1, 1000, 2500}
 
+const maxHangs = 5 // after that many hanging runs the driver stops (hs: handshakes, pol: scenarios)
+
 var hsTimeout = 20 * time.Second
 
 func b2i(b bool) int {
@@ -509,6 +511,17 @@ func modeHS(n int, seed int64, grid bool, shard, nshard int, out *bufio.Writer) 
 	}
 	idx := 0
 	mine := func() bool { idx++; return (idx-1)%nshard == shard }
+	hangs := 0
+	emitRun := func(cs hsCase, rs int64) {
+		if hangs >= maxHangs { // every hang costs hsTimeout; the recorded ones are verdict enough
+			return
+		}
+		m := runHS(cs, rand.New(rand.NewSource(rs)))
+		if m["hang"].(int) == 1 {
+			hangs++
+		}
+		emit(m)
+	}
 	if grid {
 		// the full grid of boundary pads; chunking / payload / selection rotate with the cell
 		for _, a := range padVals {
@@ -521,7 +534,7 @@ func modeHS(n int, seed int64, grid bool, shard, nshard int, out *bufio.Writer) 
 						cs.ChB = genChunk(rng, a)
 						rs := rng.Int63()
 						if mine() {
-							emit(runHS(cs, rand.New(rand.NewSource(rs))))
+							emitRun(cs, rs)
 						}
 					}
 				}
@@ -532,7 +545,7 @@ func modeHS(n int, seed int64, grid bool, shard, nshard int, out *bufio.Writer) 
 		cs := genCase(rng, i%3 == 2)
 		rs := rng.Int63()
 		if mine() {
-			emit(runHS(cs, rand.New(rand.NewSource(rs))))
+			emitRun(cs, rs)
 		}
 	}
 }
@@ -930,9 +943,17 @@ func modePol(scenFile string, seed int64, reps int, out *bufio.Writer) {
 		scens = append(scens, s)
 	}
 	rng := rand.New(rand.NewSource(seed))
+	slow := 0
 	for rep := 0; rep < reps; rep++ {
 		for _, s := range scens {
-			b, _ := json.Marshal(runPol(s, rng))
+			if slow >= maxHangs {
+				return
+			}
+			m := runPol(s, rng)
+			if m["ra"] == "timeout" || m["rb"] == "timeout" {
+				slow++
+			}
+			b, _ := json.Marshal(m)
 			out.Write(b)
 			out.WriteByte('\n')
 		}
